@@ -138,6 +138,12 @@ def pyIndex (s : List Char) (i : Int) : Option Char :=
   let k := if i < 0 then i + n else i
   if k < 0 ∨ k ≥ n then none else s[k.toNat]?
 
+/-- Python `s[i]` as a string; `''` when Python raises IndexError (SQL has no such error: documented deviation) -/
+def pyIndexStr (s : List Char) (i : Int) : List Char :=
+  match pyIndex s i with
+  | some c => [c]
+  | none => []
+
 /-! ### SQL values, dialect `substr` -/
 
 inductive SVal where
@@ -493,9 +499,8 @@ def paramToConst (fixed : Fixed) (isStart : Bool) : GArg → GArg × Fixed
       match fixed.lookup k with
       | some iv => (.const iv, fixed)
       | none =>
-          let iv := match v with
-            | some x => x
-            | none => if isStart then 0 else -1
+          -- `index_value = vars[key]; if index_value is None: index_value = 0 if is_start else -1`
+          let iv := v.getD (if isStart then 0 else -1)
           (.const iv, (k, iv) :: fixed)
   | a => (a, fixed)
 
@@ -531,15 +536,15 @@ def GArg.toArg : GArg → Arg
 
 /-- the slice branch of `StringMixin.__getitem__` (types already checked to be int) -/
 def getitemSlice (recv : Recv) (start stop : GArg) (fixed : Fixed) : GRes × Fixed :=
-  let (start1, f1) := paramToConst fixed true start
-  let (stop1, f2) := paramToConst f1 false stop
-  let startValue := knownValue 0 start1
-  let stopValue := knownValue (-1) stop1          -- the 'stop omitted' sentinel
-  if startValue = some 0 ∧ stopValue = some (-1) then (.whole, f2)
+  let r1 := paramToConst fixed true start
+  let r2 := paramToConst r1.2 false stop
+  let startValue := knownValue 0 r1.1
+  let stopValue := knownValue (-1) r2.1          -- the 'stop omitted' sentinel
+  if startValue = some 0 ∧ stopValue = some (-1) then (.whole, r2.2)
   else
     match recv, startValue, stopValue with
-    | .strConst s, some a, some b => (.folded (pySlice s.toList (some a) (some b)), f2)
-    | _, _, _ => (.node start1.toArg stop1.toArg, f2)
+    | .strConst s, some a, some b => (.folded (pySlice s.toList (some a) (some b)), r2.2)
+    | _, _, _ => (.node r1.1.toArg r2.1.toArg, r2.2)
 
 /-- the index branch of `StringMixin.__getitem__` -/
 def getitemIndex (d : Dialect) (recv : Recv) (index : GArg) (fixed : Fixed) : GRes × Fixed :=
@@ -549,6 +554,43 @@ def getitemIndex (d : Dialect) (recv : Recv) (index : GArg) (fixed : Fixed) : GR
   | _, .const v => (.substr (indexSql d recv.sql (.const v)), f1)
   | _, .expr x => (.substr (indexSql d recv.sql (.expr x)), f1)
   | _, _ => (.substr (.value 1), f1)      -- not reached: an index is never omitted / an unpinned param
+
+/-- value known at translation time (after pinning): `start_value` / `stop_value` of the original bound -/
+def GArg.known (dflt : Int) : GArg → Option Int
+  | .omitted => some dflt
+  | .const i => some i
+  | .param _ v => some (v.getD dflt)
+  | .expr _ => none
+
+/-- the bound after `param_to_const` -/
+def GArg.pin (dflt : Int) : GArg → GArg
+  | .param _ v => .const (v.getD dflt)
+  | g => g
+
+/-- the bound as `STRING_SLICE` receives it once parameters are pinned -/
+def GArg.asArg (dflt : Int) : GArg → Arg
+  | .omitted => .omitted
+  | .const i => .const i
+  | .param _ v => .const (v.getD dflt)
+  | .expr x => .expr x
+
+/-- one key denotes one Python variable -/
+def keysConsistent : GArg → GArg → Prop
+  | .param k v, .param k' v' => k = k' → v = v'
+  | _, _ => True
+
+/-- the Python value a bound denotes.  A variable whose value is None never arrives as a parameter
+    (`postSubscript` turns a NoneMonad into an omitted bound). -/
+def GArg.denotes (d : Dialect) (env : Env) : GArg → Option Int → Prop
+  | .omitted, v => v = none
+  | .const c, v => v = some c
+  | .param _ pv, v => v = pv ∧ pv ≠ none
+  | .expr x, v => ∃ i, eval d env x = .ok (.int i) ∧ v = some i
+
+/-- the "whole string" shortcut of `__getitem__`: `start_value == 0 and stop_value == -1` -/
+def shortcut (start stop : GArg) : Prop := start.known 0 = some 0 ∧ stop.known (-1) = some (-1)
+
+instance (start stop : GArg) : Decidable (shortcut start stop) := by unfold shortcut; exact inferInstance
 
 /-- the SQL expression finally built for a `__getitem__` result on dialect `d` (`none` = translation-time IndexError) -/
 def GRes.sql (d : Dialect) (recv : Recv) : GRes → Option Sql
